@@ -90,7 +90,7 @@ def scen_problems(fname, kind, opts, seed):
     return call, R
 
 
-def scen_linalg(which, method, seed):
+def scen_linalg(which, method, seed, opts=None):
     g = torch.Generator().manual_seed(seed)
     Q, _ = torch.linalg.qr(torch.randn(5, 5, generator=g, dtype=DT))
     Amat = ((Q * torch.linspace(1.0, 3.0, 5, dtype=DT)) @ Q.T).requires_grad_()
@@ -101,7 +101,7 @@ def scen_linalg(which, method, seed):
         As = (Amat + Amat.T) * 0.5
         A = LinearOperator.m(As, is_hermitian=True)
         if which == "solve":
-            return xitorch.linalg.solve(A, B, method=method), [Amat, B]
+            return xitorch.linalg.solve(A, B, method=method, **(opts or {})), [Amat, B]
         if which == "symeig":
             ev, evec = xitorch.linalg.symeig(A, neig=2, method=method)
             return torch.cat([ev, (evec ** 2).reshape(-1)]), [Amat]
@@ -138,8 +138,26 @@ def scen_interp(which, method, seed):
     return call, keep
 
 
+# options that switch code paths inside the methods (limited-memory updates, line search off, history sizes, tolerances)
+OPTION_VARIANTS = {
+    "rootfinder": [{"method": "newton"}, {"method": "broyden1", "max_rank": 2}, {"method": "broyden2", "max_rank": 2},
+                   {"method": "broyden1", "line_search": False, "alpha": -0.5}, {"method": "broyden1", "maxiter": 2}],
+    "equilibrium": [{"method": "anderson_acc", "msize": 2, "beta": 0.8}, {"method": "broyden2", "max_rank": 3}, {"method": "newton"}],
+    "minimize": [{"method": "adam", "step": 0.05, "maxiter": 40}, {"method": "broyden1", "max_rank": 2}, {"method": "gd", "step": 0.3, "gamma": 0.5, "maxiter": 40}],
+    "solve_ivp": [{"method": "rk23"}, {"method": "rk38"}, {"method": "euler"}, {"method": "rk45", "rtol": 1e-8, "atol": 1e-10}],
+    "quad": [{"n": 7}],
+}
+SOLVE_VARIANTS = [("broyden1", {"max_rank": 2}), ("broyden1", {}), ("gmres", {"max_niter": 3}), ("cg", {"max_niter": 2}), ("bicgstab", {"rtol": 1e-12, "atol": 1e-14})]
+
+
 def scenarios(thorough, seed):
     out = []
+    for fname, variants in OPTION_VARIANTS.items():
+        for opts in variants:
+            tag = ",".join("%s=%s" % kv for kv in sorted(opts.items()) if kv[0] != "method")
+            out.append(("%s/%s[%s]/edit" % (fname, opts.get("method", "default"), tag), lambda f=fname, o=opts: scen_problems(f, "edit", o, seed)))
+    for m, o in SOLVE_VARIANTS:
+        out.append(("solve/%s[%s]/dense" % (m, ",".join("%s=%s" % kv for kv in sorted(o.items()))), lambda m=m, o=o: scen_linalg("solve", m, seed, o)))
     for fname in FUNCTIONALS:
         for oi, opts in enumerate(METHOD_OPTS[fname] if thorough else METHOD_OPTS[fname][:2]):
             for kind in (("pure", "edit", "nn") if (thorough or oi == 0) else ("edit",)):
